@@ -10,7 +10,7 @@ def fingerprint(case, why):
 def run(rep, tier, seed):
     depth = 2 if tier == "quick" else 3
     cfg = ("CONSTANT Depth = %d\nCONSTANT ClearTablesAtLoadStart = TRUE\nCONSTANT FS <- NoFS8\nINIT Init\nNEXT Next\n"
-           "INVARIANT TransformIffRegisters\nINVARIANT PlainStaysPlain\nINVARIANT OtherArgPlain\nCONSTRAINT Emit\n" % depth)
+           "INVARIANT TransformIffRegisters\nINVARIANT PlainStaysPlain\nINVARIANT OtherArgPlain\nINVARIANT LoopOnePerIteration\nCONSTRAINT Emit\n" % depth)
     r = common.run_tlc("MC_C08", cfg, timeout=3300)
     common.require_ok(r, "MC_C08")
     rep.add_tlc(r, "MC_C08 register expressions up to depth %d in positional and keyword position" % depth)
